@@ -129,6 +129,7 @@ type FG struct {
 	deferBlk []int
 	usedAssumed map[string]bool
 	softErrs    []string
+	balHead     map[int]map[string]string // loop header -> balanced family -> version assumed at the head
 	beforeHit   map[string]bool // keys of 'before K assert' clauses that attached to at least one call/send
 	curBlock int
 	curInstr ssa.Instruction
